@@ -185,6 +185,10 @@ def wellformed(q) -> bool:
                 return False
         if isinstance(n, ast.Lambda) and not bridge._plain_lambda(n):
             return False
+        if isinstance(n, ast.Lambda) and len({a.arg for a in n.args.args}) != len(n.args.args):
+            return False
+        if isinstance(n, (ast.ListComp, ast.GeneratorExp, ast.SetComp, ast.DictComp, ast.comprehension)):
+            return False            # sugar is lowered before the simplifier runs (wfq excludes comprehension nodes)
         if isinstance(n, ast.Dict) and any(k is None for k in n.keys):
             return False
         if isinstance(n, ast.Constant) and isinstance(n.value, float):
